@@ -60,9 +60,9 @@ theorem named_mem (n : String) (sp : ColSpec) (h : Expected.namedSpec n = some s
     cases p with
     | mk a b => simp at hp; subst hp; exact hm
 
-/-- field-level refinement for every named type (all but `EntrezGeneId`, see C04) -/
+/-- field-level refinement for every named type -/
 theorem accept_named (C : Ctx) (n : String) (sp : ColSpec) (t : Text)
-    (h : Expected.namedSpec n = some sp) (hne : n ≠ "EntrezGeneId") :
+    (h : Expected.namedSpec n = some sp) :
     sp.accept C false t = namedBuild ⟨C.enums, C.H⟩ n t := by
   have hm := named_mem n sp h
   simp only [Expected.named, List.mem_cons, Prod.mk.injEq, List.mem_nil_iff, or_false] at hm
@@ -77,7 +77,7 @@ theorem accept_named (C : Ctx) (n : String) (sp : ColSpec) (t : Text)
   · exact Accept.accept_OneBasedIntegerColumn C t
   · exact Accept.accept_NullableZeroBasedIntegerColumn C t
   · exact Accept.accept_NullableOneBasedIntegerColumn C t
-  · exact absurd rfl hne
+  · exact Accept.accept_EntrezGeneId C t
   · exact Accept.accept_FloatColumn C t
   · exact Accept.accept_NullableFloatColumn C t
   · exact Accept.accept_SequenceOfStrings C t
@@ -187,13 +187,13 @@ theorem accept_erase (C : Ctx) (sp : ColSpec) (b : Bool) (t : Text) :
     development covers, the operational acceptance of a text equals the typed
     value the flat specification says the text denotes. -/
 theorem field_accept (C : Ctx) (ty : ColType) (sp : ColSpec) (t : Text)
-    (h : expectedOf ty = some sp) (hne : ty ≠ .named "EntrezGeneId") :
+    (h : expectedOf ty = some sp) :
     sp.accept C false t = specBuild ⟨C.enums, C.H⟩ ty t := by
   cases ty with
   | named n =>
     simp only [expectedOf] at h
     simp only [specBuild]
-    exact accept_named C n sp t h (by intro e; subst e; exact hne rfl)
+    exact accept_named C n sp t h
   | mixed extra b =>
     cases b with
     | named n =>
